@@ -17,17 +17,24 @@ package main
 
 import (
 	"bufio"
+	crand "crypto/rand"
+	"crypto/rsa"
+	"crypto/x509"
 	"encoding/base64"
 	"encoding/json"
+	"encoding/pem"
 	"fmt"
 	"io"
 	"io/ioutil"
+	"log"
 	"net"
 	"net/http"
 	"net/http/httptest"
+	"net/url"
 	"os"
 	"path/filepath"
 	"reflect"
+	"runtime"
 	"sort"
 	"strings"
 	"time"
@@ -44,6 +51,7 @@ const placeholder = "SEALEDSESSION0"
 
 type world struct {
 	Name       string
+	Host       string // the upstream's `from` host
 	pw         *c.ProxyWorld
 	srv        *httptest.Server
 	conn       net.Conn
@@ -57,6 +65,7 @@ type world struct {
 	// cmd/sso-proxy/main.go boots); the shim that sets them on the resolved config is not used.
 	ConfigFlags bool
 	BootErr     string // the configuration path refused to boot this world
+	Signing     bool   // request signing configured: the signing handler reads the body before proxying
 }
 
 type sessSpec struct {
@@ -82,6 +91,10 @@ type caseSpec struct {
 	// handler (Path says which), expected not to reach the backend at all.
 	Route         string   `json:"route,omitempty"`
 	Path          string   `json:"path,omitempty"`
+	Method        string   `json:"method,omitempty"`        // default GET (OPTIONS for preflight)
+	Body          string   `json:"body,omitempty"`
+	AbsoluteForm  bool     `json:"absolute_form,omitempty"` // request target http://host/path
+	Overlap       string   `json:"overlap,omitempty"`       // how this request overlapped with another one
 	Due           string   `json:"due,omitempty"`
 	NewToken      string   `json:"new_token,omitempty"`
 	ProfileGroups []string `json:"profile_groups,omitempty"`
@@ -136,7 +149,7 @@ func buildWorlds(backend *c.Backend, auth *c.FakeAuth, dir string) []*world {
 			opts.DefaultDomains = []string{"*"}
 		}
 		pw, err := c.BuildProxy(opts, auth)
-		w := &world{Name: s.name, pw: pw, CookieName: s.cookie, Inject: inj, Allowed: s.allowed, FavSkip: s.favSkip}
+		w := &world{Name: s.name, Host: host, pw: pw, CookieName: s.cookie, Inject: inj, Allowed: s.allowed, FavSkip: s.favSkip}
 		if err != nil {
 			// SetUpstreamConfigs / New of the tree under test refuse a configuration the modelled tree
 			// accepts: reported through the judge as a broken correspondence
@@ -146,8 +159,163 @@ func buildWorlds(backend *c.Backend, auth *c.FakeAuth, dir string) []*world {
 		}
 		ws = append(ws, w)
 	}
-	ws = append(ws, bootFromEnvironment(backend, auth, dir))
+	ws = append(ws, bootFromEnvironment(backend, auth, dir)) // index 8
+	ws = append(ws, moreWorlds(backend, auth, dir)...)
+	for _, w := range ws {
+		learnIssuedCookieName(w)
+	}
 	return ws
+}
+
+func manyGroups(n int) []string {
+	gs := make([]string, n)
+	for i := range gs {
+		gs[i] = fmt.Sprintf("g%02d", i+1)
+	}
+	return gs
+}
+
+func yamlList(l []string) string {
+	q := make([]string, len(l))
+	for i, x := range l {
+		q[i] = fmt.Sprintf("%q", x)
+	}
+	return "[" + strings.Join(q, ", ") + "]"
+}
+
+// signerKey is a throw-away RSA key in the PKCS#8 PEM form REQUESTSIGNER_KEY expects.
+func signerKey() string {
+	k, err := rsa.GenerateKey(crand.Reader, 2048)
+	c.Must(err)
+	der, err := x509.MarshalPKCS8PrivateKey(k)
+	c.Must(err)
+	return string(pem.EncodeToMemory(&pem.Block{Type: "PRIVATE KEY", Bytes: der}))
+}
+
+type upSpec struct {
+	service, host string
+	inject        map[string]string
+	allowed       []string // per-upstream allowed_groups override (nil: deployment default)
+}
+
+// deployment builds ONE proxy (SetUpstreamConfigs + New through common.BuildProxy) for several
+// upstreams listed in the given order and returns one world per upstream, all sharing the proxy.
+func deployment(name string, ups []upSpec, opts c.ProxyOpts, backend *c.Backend, auth *c.FakeAuth) []*world {
+	var b strings.Builder
+	var ws []*world
+	for _, u := range ups {
+		b.WriteString("- service: " + u.service + "\n  default:\n    from: " + u.host + "\n    to: " + backend.HostPort() + "\n    options:\n")
+		b.WriteString("      skip_auth_regex:\n        - ^/public\n")
+		allowed := opts.DefaultGroups
+		if u.allowed != nil {
+			b.WriteString("      allowed_groups: " + yamlList(u.allowed) + "\n")
+			allowed = u.allowed
+		}
+		var inj [][2]string
+		if len(u.inject) > 0 {
+			b.WriteString("      inject_request_headers:\n")
+			for k, v := range u.inject {
+				inj = append(inj, [2]string{k, v})
+			}
+			sort.Slice(inj, func(i, j int) bool { return inj[i][0] < inj[j][0] })
+			for _, kv := range inj {
+				fmt.Fprintf(&b, "        %q: %q\n", kv[0], kv[1])
+			}
+		}
+		cn := opts.CookieName
+		if cn == "" {
+			cn = "_sso_proxy"
+		}
+		ws = append(ws, &world{Name: name + "/" + u.service, Host: u.host, CookieName: cn, Inject: inj, Allowed: allowed,
+			Signing: opts.SignerKey != ""})
+	}
+	opts.YAML = b.String()
+	pw, err := c.BuildProxy(opts, auth)
+	var srv *httptest.Server
+	if err == nil {
+		srv = httptest.NewServer(pw.Handler)
+	}
+	for _, w := range ws {
+		if err != nil {
+			w.BootErr = "BuildProxy: " + err.Error()
+			continue
+		}
+		w.pw, w.srv = pw, srv
+	}
+	return ws
+}
+
+// moreWorlds: request signing on; a session cookie domain; an upstream with 30 allowed groups; and
+// one three-upstream deployment built in BOTH orders (every upstream is exercised, not only the last).
+func moreWorlds(backend *c.Backend, auth *c.FakeAuth, dir string) []*world {
+	key := signerKey()
+	base := func() c.ProxyOpts {
+		return c.ProxyOpts{Valid: time.Hour, Grace: time.Hour, DefaultGroups: stdAllowed, Dir: dir}
+	}
+	var ws []*world
+	o := base()
+	o.SignerKey = key
+	ws = append(ws, deployment("signing", []upSpec{{service: "signed", host: host}}, o, backend, auth)...) // 9
+	o = base()
+	o.CookieDomain = "sso.test"
+	ws = append(ws, deployment("cookie-domain", []upSpec{{service: "dom", host: host, inject: map[string]string{"X-Custom-Team": "dom"}}}, o, backend, auth)...) // 10
+	o = base()
+	o.DefaultGroups = manyGroups(30)
+	ws = append(ws, deployment("many-groups", []upSpec{{service: "big", host: host}}, o, backend, auth)...) // 11
+	ups := []upSpec{
+		{service: "alpha", host: "alpha.sso.test", inject: map[string]string{"X-Custom-Team": "alpha"}},
+		{service: "beta", host: "beta.sso.test", inject: map[string]string{"X-Forwarded-User": "injected-beta", "X-Custom-Team": "beta"}},
+		{service: "gamma", host: "gamma.sso.test", allowed: []string{"ops", "team"}},
+	}
+	o = base()
+	o.SignerKey, o.CookieDomain = key, "sso.test"
+	ws = append(ws, deployment("multi-abc", ups, o, backend, auth)...) // 12,13,14
+	rev := []upSpec{ups[2], ups[1], ups[0]}
+	o = base()
+	o.SignerKey, o.CookieDomain = key, "sso.test"
+	ws = append(ws, deployment("multi-cba", rev, o, backend, auth)...) // 15,16,17
+	return ws
+}
+
+// learnIssuedCookieName signs a user in through the proxy's real flow (start, callback, redeem at the
+// fake authenticator) and takes the NAME of the session cookie from what the proxy itself issues:
+// "the proxy's own session cookie" is whatever cookie carries the sealed session. On the unchanged tree
+// this is the configured name.
+func learnIssuedCookieName(w *world) {
+	if w.BootErr != "" {
+		return
+	}
+	groups := w.Allowed
+	if groups == nil {
+		groups = []string{}
+	}
+	w.pw.Auth.Set(c.AuthScript{
+		Redeem: c.Answer{Status: 200, Body: c.JSONBody(map[string]interface{}{
+			"access_token": "login-at", "refresh_token": "login-rt", "expires_in": 7200, "email": "login@corp.test"})},
+		Profile:  c.Answer{Status: 200, Body: c.JSONBody(map[string]interface{}{"email": "login@corp.test", "groups": groups})},
+		Validate: c.Answer{Status: 200, Body: "{}"},
+	})
+	rec := w.pw.Do(c.NewReq("GET", w.Host, "/private/login"))
+	loc, _ := url.Parse(rec.Header().Get("Location"))
+	state := ""
+	if loc != nil {
+		state = loc.Query().Get("state")
+	}
+	cb := c.NewReq("GET", w.Host, "/oauth2/callback?code=abc&state="+url.QueryEscape(state))
+	for _, ck := range rec.Result().Cookies() {
+		cb.AddCookie(&http.Cookie{Name: ck.Name, Value: ck.Value})
+	}
+	rec = w.pw.Do(cb)
+	for _, ck := range rec.Result().Cookies() {
+		if ck.Value == "" {
+			continue
+		}
+		if s := w.pw.Open(ck.Value); s != nil && s.Email == "login@corp.test" {
+			w.CookieName = ck.Name
+			return
+		}
+	}
+	c.SetupFailed("world %s: sign-in through the real callback issued no session cookie (status %d)", w.Name, rec.Code)
 }
 
 // boolLeaves lists the boolean fields below a struct type as tag paths (tag key "mapstructure" or "yaml").
@@ -187,7 +355,7 @@ func tagOf(t reflect.Type, field, tagKey string) string {
 // (pass_access_token, skip_auth_preflight, ...). What the operator wrote for this upstream is
 // therefore: access token NOT passed, preflight NOT exempt from authentication.
 func bootFromEnvironment(backend *c.Backend, auth *c.FakeAuth, dir string) *world {
-	w := &world{Name: "env-boot-opt-out", CookieName: "_sso_proxy", Allowed: stdAllowed, ConfigFlags: true}
+	w := &world{Name: "env-boot-opt-out", Host: host, CookieName: "_sso_proxy", Allowed: stdAllowed, ConfigFlags: true}
 	fail := func(step string, err error) *world {
 		w.BootErr = step + ": " + err.Error()
 		return w
@@ -257,8 +425,11 @@ func bootFromEnvironment(backend *c.Backend, auth *c.FakeAuth, dir string) *worl
 	}
 	cipher, err := aead.NewMiscreantCipher(c.FixedSecret)
 	c.Must(err)
-	w.pw = &c.ProxyWorld{Handler: p, Auth: auth, Cfg: cfg, Secret: c.FixedSecret, Cipher: cipher, CookieName: w.CookieName}
-	w.srv = httptest.NewServer(p)
+	// the outermost handler cmd/sso-proxy/main.go installs: the logging handler around the proxy
+	cfg.LoggingConfig.Enable = true
+	outer := proxy.NewLoggingHandler(ioutil.Discard, p, cfg.LoggingConfig, sc)
+	w.pw = &c.ProxyWorld{Handler: outer, Auth: auth, Cfg: cfg, Secret: c.FixedSecret, Cipher: cipher, CookieName: w.CookieName}
+	w.srv = httptest.NewServer(outer)
 	w.Name += " defaults-on=" + strings.Join(defaultsOn, ",")
 	return w
 }
@@ -284,7 +455,7 @@ func (w *world) send(raw string, closeAfter bool) (int, []*http.Cookie, error) {
 		w.reset()
 		return 0, nil, err
 	}
-	resp, err := http.ReadResponse(w.br, nil)
+	resp, err := http.ReadResponse(w.br, &http.Request{Method: methodOf(raw)}) // a HEAD response has no body
 	if err != nil {
 		w.reset()
 		return 0, nil, err
@@ -295,6 +466,13 @@ func (w *world) send(raw string, closeAfter bool) (int, []*http.Cookie, error) {
 		w.reset()
 	}
 	return resp.StatusCode, resp.Cookies(), nil
+}
+
+func methodOf(raw string) string {
+	if i := strings.IndexByte(raw, ' '); i > 0 {
+		return raw[:i]
+	}
+	return "GET"
 }
 
 type observation struct {
@@ -319,17 +497,13 @@ func subst(l []string, from, to string) []string {
 
 var owsForms = [][2]string{{" ", ""}, {"", ""}, {"  ", " "}, {"\t", "\t "}, {" ", "  "}}
 
-func run(ws []*world, backend *c.Backend, cs caseSpec, r *c.Rng) c.Case {
-	w := ws[cs.World]
-	if w.BootErr != "" {
-		// the configuration path of the tree under test refuses a configuration the unchanged tree
-		// accepts: a broken correspondence, reported through the judge (never a harness error)
-		return c.Case{Coq: "CaseBootFailed", JSON: map[string]interface{}{"world": w.Name, "spec": cs, "boot_error": w.BootErr}}
-	}
+// prepare seals the session of an authenticated case, scripts the fake authenticator and renders
+// the raw request: head (request line, headers, blank line) and body.
+func prepare(w *world, cs caseSpec, r *c.Rng) (head, body, sealed string, closeAfter bool) {
 	if !w.ConfigFlags {
 		proxy.VerifC03SetFlags(&w.pw.Cfg, cs.Pass, cs.Mode == "preflight")
 	}
-	sealed := placeholder
+	sealed = placeholder
 	if cs.Mode == "auth" {
 		// every deadline comparison has a margin of minutes: "due" = 5 min in the past, else 10 h ahead
 		refreshDl, validDl := time.Now().Add(10*time.Hour), time.Now().Add(10*time.Hour)
@@ -354,7 +528,7 @@ func run(ws []*world, backend *c.Backend, cs caseSpec, r *c.Rng) c.Case {
 		sealed = w.pw.Seal(&sessions.SessionState{
 			ProviderSlug: "google", AccessToken: cs.Sess.Token, RefreshToken: "rt",
 			RefreshDeadline: refreshDl, LifetimeDeadline: time.Now().Add(100 * time.Hour), ValidDeadline: validDl,
-			Email: cs.Sess.Email, User: cs.Sess.User, Groups: cs.Sess.Groups, AuthorizedUpstream: host,
+			Email: cs.Sess.Email, User: cs.Sess.User, Groups: cs.Sess.Groups, AuthorizedUpstream: w.Host,
 		})
 	}
 	method, path := "GET", "/private/page?x=1"
@@ -364,15 +538,20 @@ func run(ws []*world, backend *c.Backend, cs caseSpec, r *c.Rng) c.Case {
 	case "preflight":
 		method, path = "OPTIONS", "/private/api"
 	}
+	if cs.Method != "" && cs.Mode != "preflight" {
+		method = cs.Method
+	}
 	if cs.Path != "" {
 		path = cs.Path
 	}
 	if cs.Route == "favicon" {
 		path = "/favicon.ico"
 	}
+	if cs.AbsoluteForm {
+		path = "http://" + w.Host + path
+	}
 	var b strings.Builder
-	fmt.Fprintf(&b, "%s %s HTTP/1.1\r\nHost: %s\r\n", method, path, host)
-	closeAfter := false
+	fmt.Fprintf(&b, "%s %s HTTP/1.1\r\nHost: %s\r\n", method, path, w.Host)
 	for _, h := range cs.Headers {
 		o := owsForms[r.Intn(len(owsForms))]
 		fmt.Fprintf(&b, "%s:%s%s%s\r\n", h[0], o[0], strings.ReplaceAll(h[1], placeholder, sealed), o[1])
@@ -380,19 +559,16 @@ func run(ws []*world, backend *c.Backend, cs caseSpec, r *c.Rng) c.Case {
 			closeAfter = true
 		}
 	}
-	b.WriteString("\r\n")
-	backend.Take()
-	status, setCookies, err := w.send(b.String(), closeAfter)
-	if err != nil { // the harness's own socket: retry once on a fresh connection
-		backend.Take()
-		status, setCookies, err = w.send(b.String(), closeAfter)
-		if err != nil {
-			// twice no HTTP response (e.g. the handler of the tree under test panics and the server
-			// drops the connection): an observation — nothing forwarded, status 0 — not a harness error
-			status, setCookies = 0, nil
-		}
+	if cs.Body != "" || method == "POST" || method == "PUT" {
+		fmt.Fprintf(&b, "Content-Length: %d\r\n", len(cs.Body))
 	}
-	seen := backend.Take()
+	b.WriteString("\r\n")
+	return b.String(), cs.Body, sealed, closeAfter
+}
+
+// observe turns what came back (response status and Set-Cookies, the backend's records of this
+// request) into a case.
+func observe(w *world, cs caseSpec, sealed string, status int, setCookies []*http.Cookie, seen []c.RecordedRequest) c.Case {
 	if cs.Route == "none" {
 		return c.Case{Coq: fmt.Sprintf("CaseNoUpstream %s %s", pairs(cs.Headers), c.Bool(len(seen) != 0)),
 			JSON: map[string]interface{}{"world": w.Name, "spec": cs, "status": status, "backend_requests": len(seen)}}
@@ -421,7 +597,92 @@ func run(ws []*world, backend *c.Backend, cs caseSpec, r *c.Rng) c.Case {
 			o.Cookies = append(o.Cookies, [2]string{ck.Name, strings.ReplaceAll(ck.Value, sealed, placeholder)})
 		}
 	}
-	return c.Case{Coq: coqCase(w, cs, o), JSON: map[string]interface{}{"world": w.Name, "spec": cs, "obs": o, "tree_scrubs": scrubs}}
+	return c.Case{Coq: coqCase(w, cs, o), JSON: map[string]interface{}{"world": w.Name, "spec": cs, "obs": o, "tree_scrubs": scrubs,
+		"time_local": time.Local.String()}}
+}
+
+func bootFailed(w *world, cs caseSpec) c.Case {
+	// the configuration path of the tree under test refuses a configuration the unchanged tree
+	// accepts: a broken correspondence, reported through the judge (never a harness error)
+	return c.Case{Coq: "CaseBootFailed", JSON: map[string]interface{}{"world": w.Name, "spec": cs, "boot_error": w.BootErr}}
+}
+
+func run(ws []*world, backend *c.Backend, cs caseSpec, r *c.Rng) c.Case {
+	w := ws[cs.World]
+	if w.BootErr != "" {
+		return bootFailed(w, cs)
+	}
+	head, body, sealed, closeAfter := prepare(w, cs, r)
+	backend.Take()
+	status, setCookies, err := w.send(head+body, closeAfter)
+	if err != nil { // the harness's own socket: retry once on a fresh connection
+		backend.Take()
+		status, setCookies, err = w.send(head+body, closeAfter)
+		if err != nil {
+			// twice no HTTP response (e.g. the handler of the tree under test panics and the server
+			// drops the connection): an observation — nothing forwarded, status 0 — not a harness error
+			status, setCookies = 0, nil
+		}
+	}
+	return observe(w, cs, sealed, status, setCookies, backend.Take())
+}
+
+// runOverlap realises one deterministic overlap of two authenticated requests of DIFFERENT users on
+// one proxy: request A (a POST whose body is withheld) is parked inside the proxy's handler chain
+// — with request signing configured the signing handler reads the whole body before the reverse
+// proxy takes its copy of the header map —, request B runs to completion, then A's body is
+// released. A and B are judged separately, each against its own session: identity headers are
+// per-request values and must not depend on what else the process is doing.
+func runOverlap(ws []*world, backend *c.Backend, wi int, a, b caseSpec, r *c.Rng, singleP bool) []c.Case {
+	w := ws[wi]
+	if w.BootErr != "" {
+		return []c.Case{bootFailed(w, a)}
+	}
+	if singleP {
+		defer runtime.GOMAXPROCS(runtime.GOMAXPROCS(1))
+	}
+	a.World, b.World = wi, wi
+	headA, bodyA, sealedA, _ := prepare(w, a, r)
+	backend.Take()
+	addr := strings.TrimPrefix(w.srv.URL, "http://")
+	connA, err := net.Dial("tcp", addr)
+	c.Must(err)
+	defer connA.Close()
+	connA.SetDeadline(time.Now().Add(30 * time.Second))
+	half := len(bodyA) / 2
+	io.WriteString(connA, headA+bodyA[:half])
+	time.Sleep(60 * time.Millisecond) // A has long passed Authenticate and waits for the rest of its body
+	headB, bodyB, sealedB, _ := prepare(w, b, r)
+	connB, err := net.Dial("tcp", addr)
+	c.Must(err)
+	defer connB.Close()
+	connB.SetDeadline(time.Now().Add(30 * time.Second))
+	io.WriteString(connB, headB+bodyB)
+	statusB, cookiesB := 0, []*http.Cookie(nil)
+	if resp, err := http.ReadResponse(bufio.NewReader(connB), &http.Request{Method: methodOf(headB)}); err == nil {
+		io.Copy(ioutil.Discard, resp.Body)
+		resp.Body.Close()
+		statusB, cookiesB = resp.StatusCode, resp.Cookies()
+	}
+	io.WriteString(connA, bodyA[half:])
+	statusA, cookiesA := 0, []*http.Cookie(nil)
+	if resp, err := http.ReadResponse(bufio.NewReader(connA), &http.Request{Method: methodOf(headA)}); err == nil {
+		io.Copy(ioutil.Discard, resp.Body)
+		resp.Body.Close()
+		statusA, cookiesA = resp.StatusCode, resp.Cookies()
+	}
+	var seenA, seenB []c.RecordedRequest
+	for _, rq := range backend.Take() {
+		switch {
+		case strings.HasPrefix(rq.URI, a.Path):
+			seenA = append(seenA, rq)
+		case strings.HasPrefix(rq.URI, b.Path):
+			seenB = append(seenB, rq)
+		default:
+			seenA = append(seenA, rq) // an unexpected upstream request counts against A
+		}
+	}
+	return []c.Case{observe(w, a, sealedA, statusA, cookiesA, seenA), observe(w, b, sealedB, statusB, cookiesB, seenB)}
 }
 
 func pairs(l [][2]string) string {
@@ -446,7 +707,7 @@ func probe(ws []*world, backend *c.Backend, r *c.Rng) {
 	}
 	proxy.VerifC03SetFlags(&w.pw.Cfg, false, false)
 	backend.Take()
-	w.send("GET /public/probe HTTP/1.1\r\nHost: "+host+"\r\nX-Forwarded-User: probe\r\n\r\n", false)
+	w.send("GET /public/probe HTTP/1.1\r\nHost: "+w.Host+"\r\nX-Forwarded-User: probe\r\n\r\n", false)
 	seen := backend.Take()
 	if len(seen) == 1 {
 		scrubs = len(seen[0].Header["X-Forwarded-User"]) == 0
@@ -521,7 +782,16 @@ func genSession(r *c.Rng) sessSpec {
 	emails := []string{"bob@corp.test", "", "x@y", "Ünï@corp.test", "bob@corp.test"}
 	groups := [][]string{{}, {"g1"}, {"g1", "g2"}, {"a b"}, {""}, {"x", ""}, {"eng", "ops", "sec"}, {"team"}, {"team", "eng"}, {"ops", "team", "eng"}}
 	tokens := []string{"", "tok-123", "ya29.A0_-/+==", "t"}
-	return sessSpec{User: r.Pick(users), Email: r.Pick(emails), Groups: groups[r.Intn(len(groups))], Token: r.Pick(tokens)}
+	gs := groups[r.Intn(len(groups))]
+	if r.Chance(0.2) {
+		// size of the group list as a dimension of its own: around 10, around 16/32/64, large
+		n := []int{9, 10, 11, 12, 13, 15, 16, 17, 31, 32, 33, 64, 120}[r.Intn(13)]
+		gs = make([]string, n)
+		for i := range gs {
+			gs[i] = fmt.Sprintf("grp-%03d", i+1)
+		}
+	}
+	return sessSpec{User: r.Pick(users), Email: r.Pick(emails), Groups: gs, Token: r.Pick(tokens)}
 }
 
 // the authenticator's /profile answer: always at least one allowed group (the request must be
@@ -534,6 +804,14 @@ func genProfileGroups(r *c.Rng, allowed []string) []string {
 	}
 	if len(allowed) > 0 {
 		gs = append(gs, r.Pick(allowed))
+	}
+	if len(allowed) > 10 && r.Chance(0.7) {
+		// a user in many of the allowed groups: the refreshed / revalidated list passes 10, 16 entries
+		for _, g := range allowed {
+			if r.Chance(0.6) {
+				gs = append(gs, g)
+			}
+		}
 	}
 	r.Shuffle(len(gs), func(i, j int) { gs[i], gs[j] = gs[j], gs[i] })
 	if gs == nil {
@@ -694,8 +972,8 @@ func genCase(r *c.Rng, ws []*world) caseSpec {
 	cs.World = r.Intn(len(ws))
 	if r.Chance(0.3) {
 		cs.World = 0
-	} else if r.Chance(0.12) {
-		cs.World = len(ws) - 1 // the world booted from the environment
+	} else if r.Chance(0.1) {
+		cs.World = 8 // the world booted from the environment
 	}
 	switch x := r.Intn(10); {
 	case x < 6:
@@ -752,6 +1030,18 @@ func genCase(r *c.Rng, ws []*world) caseSpec {
 			// preflight exemption explicitly off: an OPTIONS request without a session must not
 			// reach the upstream
 			cs.Route = "none"
+		}
+	}
+	if cs.Route == "" && cs.Mode != "preflight" {
+		switch r.Intn(8) {
+		case 0:
+			cs.Method, cs.Body = "POST", r.Pick([]string{"", "a=1&b=2", strings.Repeat("payload ", 40)})
+		case 1:
+			cs.Method, cs.Body = "PUT", "{\"k\":\"v\"}"
+		case 2:
+			cs.Method = r.Pick([]string{"HEAD", "DELETE", "PATCH"})
+		case 3:
+			cs.AbsoluteForm = cs.Path != "" && !strings.Contains(cs.Path, "?")
 		}
 	}
 	var hs [][2]string
@@ -950,6 +1240,72 @@ func corpus() []caseSpec {
 	}
 }
 
+func nGroups(prefix string, n int) []string {
+	gs := make([]string, n)
+	for i := range gs {
+		gs[i] = fmt.Sprintf("%s%02d", prefix, i+1)
+	}
+	return gs
+}
+
+// corpusLate: hand-written cases for the worlds whose session cookie name is learnt from the proxy
+func corpusLate(ws []*world) []caseSpec {
+	s := sessSpec{User: "bob", Email: "bob@corp.test", Groups: []string{"g1", "g2"}, Token: "tok-123"}
+	var out []caseSpec
+	for wi := 9; wi < len(ws); wi++ {
+		w := ws[wi]
+		sc := w.CookieName + "=" + placeholder
+		out = append(out,
+			caseSpec{World: wi, Mode: "auth", Pass: true, Sess: s, Headers: [][2]string{{"Cookie", "a=b; " + sc + "; " + w.CookieName + "_csrf=c"},
+				{"X-Forwarded-User", "evil"}, {"x-forwarded-access-token", "stolen"}}},
+			caseSpec{World: wi, Mode: "skip", Sess: s, Headers: [][2]string{{"Cookie", sc + "; keep=1"}, {"X-Forwarded-Email", "evil@x"}}})
+	}
+	many := func(n int) sessSpec {
+		return sessSpec{User: "bob", Email: "bob@corp.test", Groups: nGroups("grp-", n), Token: "tok-123"}
+	}
+	sc0 := ws[0].CookieName + "=" + placeholder
+	for _, n := range []int{10, 11, 12, 17, 33, 64} {
+		out = append(out, caseSpec{World: 0, Mode: "auth", Pass: true, Sess: many(n), Note: fmt.Sprintf("%d groups", n), Headers: [][2]string{{"Cookie", sc0}}})
+	}
+	sc11 := ws[11].CookieName + "=" + placeholder
+	out = append(out,
+		caseSpec{World: 11, Mode: "auth", Pass: true, Sess: sessSpec{User: "bob", Email: "bob@corp.test", Groups: manyGroups(12), Token: "old"},
+			Due: "refresh", NewToken: "rotated-6", ProfileGroups: manyGroups(14), Note: "refresh to 14 groups", Headers: [][2]string{{"Cookie", sc11}}},
+		caseSpec{World: 11, Mode: "auth", Pass: true, Sess: sessSpec{User: "bob", Email: "bob@corp.test", Groups: manyGroups(3), Token: "old"},
+			Due: "validate", ProfileGroups: manyGroups(30), Note: "revalidation to 30 groups", Headers: [][2]string{{"Cookie", sc11}}},
+		caseSpec{World: 9, Mode: "auth", Pass: true, Sess: s, Method: "POST", Body: "a=1&b=2", Headers: [][2]string{{"Cookie", ws[9].CookieName + "=" + placeholder}}},
+		caseSpec{World: 9, Mode: "auth", Pass: true, Sess: s, Method: "HEAD", Headers: [][2]string{{"Cookie", ws[9].CookieName + "=" + placeholder}}},
+		caseSpec{World: 0, Mode: "auth", Pass: true, Sess: s, Path: "/abs/path", AbsoluteForm: true, Headers: [][2]string{{"Cookie", sc0}}})
+	return out
+}
+
+// overlapPairs: deterministic overlaps of two users' requests on the worlds with request signing
+func overlapPairs(ws []*world, backend *c.Backend, r *c.Rng, n int) []c.Case {
+	var signing []int
+	for i, w := range ws {
+		if w.Signing && w.BootErr == "" {
+			signing = append(signing, i)
+		}
+	}
+	var out []c.Case
+	for i := 0; i < n && len(signing) > 0; i++ {
+		wi := signing[i%len(signing)]
+		w := ws[wi]
+		ck := [2]string{"Cookie", w.CookieName + "=" + placeholder}
+		a := caseSpec{Mode: "auth", Pass: true, Method: "POST", Body: strings.Repeat("slow upload ", 20), Path: fmt.Sprintf("/private/ovl-a-%d", i),
+			Sess:    sessSpec{User: "alice", Email: "alice@corp.test", Groups: []string{"team", "eng"}, Token: "alice-token"},
+			Headers: [][2]string{ck, {"X-Overlap", "A"}}, Overlap: "A: body withheld while B ran"}
+		b := caseSpec{Mode: "auth", Pass: true, Path: fmt.Sprintf("/private/ovl-b-%d", i),
+			Sess:    sessSpec{User: "mallory", Email: "mallory@contractor.test", Groups: []string{"ops"}, Token: "mallory-token"},
+			Headers: [][2]string{ck, {"X-Overlap", "B"}}, Overlap: "B: ran while A was parked"}
+		if r.Chance(0.3) {
+			b.Method, b.Body = "POST", "x=1"
+		}
+		out = append(out, runOverlap(ws, backend, wi, a, b, r, i%2 == 0)...)
+	}
+	return out
+}
+
 func loadCorpusDir(dir string) []caseSpec {
 	var out []caseSpec
 	if dir == "" {
@@ -973,6 +1329,7 @@ func loadCorpusDir(dir string) []caseSpec {
 func main() {
 	a := c.ParseArgs()
 	c.Quiet()
+	log.SetOutput(ioutil.Discard) // net/http's own server log ("superfluous WriteHeader", TLS noise)
 	r := c.NewRng(a.Seed)
 	dir := c.Scratch(a.Out)
 	defer os.RemoveAll(dir)
@@ -982,9 +1339,11 @@ func main() {
 	defer backend.Srv.Close()
 	ws := buildWorlds(backend, auth, dir)
 	defer func() {
+		closed := map[*httptest.Server]bool{}
 		for _, w := range ws {
 			w.reset()
-			if w.srv != nil {
+			if w.srv != nil && !closed[w.srv] {
+				closed[w.srv] = true
 				w.srv.Close()
 			}
 		}
@@ -994,12 +1353,27 @@ func main() {
 	for _, cs := range corpus() {
 		cases = append(cases, run(ws, backend, cs, r))
 	}
+	for _, cs := range corpusLate(ws) {
+		cases = append(cases, run(ws, backend, cs, r))
+	}
+	nPairs := 10
+	if a.Tier == "thorough" {
+		nPairs = 40
+	}
+	cases = append(cases, overlapPairs(ws, backend, r, nPairs)...)
 	for _, cs := range loadCorpusDir(a.Corpus) {
 		if cs.World >= 0 && cs.World < len(ws) {
 			cases = append(cases, run(ws, backend, cs, r))
 		}
 	}
+	utc := time.Local
+	defer func() { time.Local = utc }()
 	for i := 0; i < a.N; i++ {
+		if i == a.N/2 {
+			// the second half of the cases runs in a zone east of UTC with a quarter-hour offset:
+			// sealed deadlines must mean the same instants (no request is in flight here)
+			time.Local = time.FixedZone("east", 12*3600+45*60)
+		}
 		if i%16 == 15 {
 			cases = append(cases, run(ws, backend, genNoUpstream(r, ws), r))
 			continue
